@@ -33,6 +33,7 @@ def run(ctx):
     res = tlc.run('Grid', cfg='Grid.cfg' if quick else 'Grid_t.cfg', workers=8, timeout=3000)
     ctx.add_tlc(res, 'Grid: nearest nodes in the grid parameter, flat order, CDF')
     rng = np.random.default_rng(ctx.seed)
+    check_midpoint_neighbours(ctx, quick)
     for row in res.json:
         c, e = row['case'], row['exp']
         if c['kind'] == 'near':
@@ -181,3 +182,37 @@ def run(ctx):
                 except ValueError:
                     raised = True
                 ctx.check(raised, 'grid_prep_opts:length', 'inconsistent option length %d for d = %d is not rejected' % (len(bad), d))
+
+
+def check_midpoint_neighbours(ctx, quick):
+    """Uniform grids on dyadic boxes [0, 2^j] (and boxes shifted to the right by 2^j, 3 * 2^j, where x - a is still exact) with n = 2^k + 1 nodes: the grid parameter of a
+    double is computed without rounding, so "a nearest node" is decided exactly (rational arithmetic) for the midpoint of
+    every cell and for its two floating point neighbours on each side; at the exact tie either neighbour is accepted."""
+    for j in (0, 1, 3, -2, 10) if quick else (0, 1, 2, 3, -1, -2, -5, 10, 20):
+        for off in (0., 2.0 ** j) if quick else (0., 2.0 ** j, 3 * 2.0 ** j):
+            a, b = off, off + 2.0 ** j
+            for k in range(0, 7):
+                n = 2 ** k + 1
+                h = (b - a) / (n - 1)
+                xs = []
+                for c in range(n - 1):
+                    mid = a + (c + 0.5) * h
+                    lo1 = np.nextafter(mid, -np.inf)
+                    hi1 = np.nextafter(mid, np.inf)
+                    xs += [np.nextafter(lo1, -np.inf), lo1, mid, hi1, np.nextafter(hi1, np.inf)]
+                I = np.asarray(teneva.poi_to_ind(np.array(xs).reshape(-1, 1), a, b, n))
+                ctx.case(key=('midpoints', j, off, n), nontrivial=True)
+                bad = []
+                if I.shape != (len(xs), 1):
+                    bad.append(('shape', I.shape))
+                else:
+                    for x, i in zip(xs, I[:, 0]):
+                        t = (Fraction(float(x)) - Fraction(a)) / (Fraction(b) - Fraction(a)) * (n - 1)
+                        t = min(max(t, Fraction(0)), Fraction(n - 1))
+                        if not (0 <= int(i) <= n - 1 and abs(Fraction(int(i)) - t) <= Fraction(1, 2)):
+                            bad.append((float(x).hex(), int(i), float(t)))
+                    one = [int(np.asarray(teneva.poi_to_ind([x], [a], [b], [n]))[0]) for x in xs[:10]]
+                    if one != [int(v) for v in I[:10, 0]]:
+                        bad.append(('single points differ from the batch', one))
+                ctx.check(not bad, 'poi_to_ind:uni', 'uniform grid on [%r, %r] with n = %d nodes: %d of %d points next to cell midpoints are not mapped to a nearest node, e.g. (x, index, grid parameter) = %s'
+                          % (a, b, n, len(bad), len(xs), bad[:3]))
